@@ -63,6 +63,9 @@ fn show(args: &[String]) {
         println!("  {e}");
     }
     if let Some(ir) = &o.ir {
+        if std::env::var("PVH_IR").is_ok() {
+            println!("{ir}");
+        }
         println!("lli: {:?}", alpha::run_lli(ir, 10));
     }
 }
